@@ -8,7 +8,7 @@ import typing
 from msdparser import MSDParserError
 
 from .. import gen, models, ops
-from ..core import RunResult, HarnessError
+from ..core import RunResult, HarnessError, shash
 from ..facades import Facade
 from ..models import (LoadError, RefSMChart, ref_detect, ref_load, ref_load_sscchart,
                       strip_stray_text, universal_newlines, ref_emit, simfile_from_plain,
@@ -400,7 +400,7 @@ def _judge(res, label, text, name, strict, fn, lib, forced_kind=None, translate=
                         got=_trim(gp), expected=_trim(exp.plain()), text=text[:300])
             return False
     res.note("ok", label.split(":")[0], strict, kind, type(name).__name__,
-             len(exp.items), len(exp.charts), hash(tuple(k for k, _ in exp.items[:5])) & 0xfff)
+             len(exp.items), len(exp.charts), shash(tuple(k for k, _ in exp.items[:5])) & 0xfff)
     return True
 
 
@@ -694,7 +694,7 @@ def check_c04(sc, res):
         if v:
             res.stats["buggify:" + k] += v
     res.note("cycle", fmt, facade, strict, cfg.get("corrupt"), len(m1.items), len(m1.charts),
-             any(v is None for _, v in m1.items), hash(tuple(k for k, _ in m1.items[:6])) & 0xffff)
+             any(v is None for _, v in m1.items), shash(tuple(k for k, _ in m1.items[:6])) & 0xffff)
 
 
 def norm_(p):
